@@ -11,7 +11,7 @@ import shutil
 import tempfile
 
 from vf.gen import bytesgen, fstree
-from vf.sim import ServerSim, SpyHandler, SpyUpload
+from vf.sim import ServerSim, SpyHandler, SpyMiddleware, SpyUpload
 from vf.vloop import close_loop, new_loop
 
 WATCHDOG = {"quick": 600, "thorough": 3000}
@@ -27,7 +27,7 @@ def setup(ctx):
         "for each client byte string (gemini +/- trailing garbage; titan with content in the same read, late, in "
         "pieces, zero-byte delete, longer than declared, oversize/corrupt lines) the single-read run is the "
         "baseline; every other segmentation (all 2^(n-1) for n<=13, all 1-/2-cut and random multi-cut beyond) x "
-        "schedule (burst, 1 s gaps while a 10 s handler runs, sync handler) must give the same client-visible "
+        "schedule (burst, gaps while a 10 s handler runs, sync handler; each also behind an allowing middleware chain, instant or 3 s slow) must give the same client-visible "
         "bytes, the same upload effect (spy arguments and real FileUploadHandler tree) and <=1 handler entry. "
         "L2 repeats it with ciphertext cuts on both TLS layers. distinct = (request class, schedule, number of "
         "cuts bucket, where the cut falls relative to CRLF/content); single-read baselines are trivial."
@@ -63,7 +63,7 @@ REQS = [
     (b"gemini://h/\r", "cr-only"),
 ]
 
-SCHEDULES = ["burst-sync", "burst-async", "gaps-slow-handler"]
+SCHEDULES = ["burst-sync", "burst-async", "gaps-slow-handler", "burst-async+mw", "gaps-slow-handler+mw", "burst-sync+slow-mw"]
 
 
 def run_once(data: bytes, cuts, schedule: str, real_upload_dir=None):
@@ -71,6 +71,13 @@ def run_once(data: bytes, cuts, schedule: str, real_upload_dir=None):
 
     log = []
     loop = new_loop()
+    mw_spec = None
+    if schedule.endswith("+mw"):
+        schedule = schedule[:-3]
+        mw_spec = {"outcome": "allow", "delay": 0}
+    elif schedule.endswith("+slow-mw"):
+        schedule = schedule[: -len("+slow-mw")]
+        mw_spec = {"outcome": "allow", "delay": 3}
     try:
         if schedule == "burst-sync":
             hs = {"mode": "sync"}
@@ -107,14 +114,15 @@ def run_once(data: bytes, cuts, schedule: str, real_upload_dir=None):
             up.calls = calls
         else:
             up = SpyUpload(us, log, loop)
-        sim = ServerSim(lambda: GeminiServerProtocol(h, None, up), loop=loop, log=log)
+        mw = SpyMiddleware(mw_spec, log, loop) if mw_spec else None
+        sim = ServerSim(lambda: GeminiServerProtocol(h, mw, up), loop=loop, log=log)
         sim.start()
         reads_during = 0
         chunks = bytesgen.split(data, cuts)
         if gap:
             gap = min(1.0, 20.0 / max(1, len(chunks)))  # whole delivery stays inside the request timeout
         for ch in chunks:
-            running = (len(h.calls) + len(up.calls)) > 0 and not sim.transport.closing
+            running = (len(h.calls) + len(up.calls) + (len(mw.calls) if mw else 0)) > 0 and not sim.transport.closing
             if sim.feed(ch) and running:
                 reads_during += 1
             if gap:
@@ -126,6 +134,7 @@ def run_once(data: bytes, cuts, schedule: str, real_upload_dir=None):
         return {
             "stream": bytes(sim.transport.written),
             "handler_calls": len(h.calls),
+            "mw_calls": len(mw.calls) if mw else 0,
             "upload_calls": ucalls,
             "n_upload": len(up.calls),
             "closing": sim.transport.closing,
@@ -164,6 +173,8 @@ def compare(ctx, label, data, cuts, schedule, base, obs, level="L1", extra=None)
     proto = "titan" if data.startswith(b"titan://") else "gemini"
     where = "during-handler" if obs.get("reads_during") else "/".join(cut_class(data, cuts)) or "none"
     sfx = f":proto={proto}:where={where}" + (f":backend={extra['backend']}" if extra and "backend" in extra else "")
+    if obs.get("mw_calls", 0) > 1:
+        ctx.violation("chain-consulted-twice" + sfx, f"middleware chain consulted {obs['mw_calls']} times on one connection", wit)
     if obs["handler_calls"] > 1 or obs["n_upload"] > 1:
         ctx.violation("handler-ran-twice" + sfx, f"{obs['handler_calls']} request-handler and {obs['n_upload']} upload-handler entries on one connection", wit)
     if obs["stream"] != base["stream"]:
